@@ -162,8 +162,8 @@ PROPS = {
     "C16": dict(
         props_module="Ucan.Props.C16",
         streams=["did"],
-        technique="Lean 4 proofs over a model of Parse/String/PubKey/FromPubKey with base58 and the per-codec key (un)marshallers as parameters: varint round trip (induction), key→DID→text→DID→key identity, DID equality ⇔ key equality, canonical-identifier theorem, rejection theorems, and a decide-checked inclusion between the multicodec tables REGENERATED from the source; tied by a differential run over keys of every algorithm and alternative encodings of their material with an independent crypto-library oracle",
-        level_text="C16_tables (every code FromPubKey can emit is in Parse's whitelist and PubKey's table — over facts regenerated from did.go/crypto.go on every run), uvarint_roundtrip, C16_parse_print, C16_roundtrip, C16_eq_iff, C16_distinct_algorithms, C16_canonical, C16_one_principal_one_did, C16_print_injective, C16_reject_prefix/base/codec, C16_parsed_code. Go is compared with the model on keys of Ed25519, secp256k1 (native and ECDSA-typed, incl. short coordinates), P-256/384/521, RSA and on did:key strings with uncompressed/hybrid points, flipped parity, off-curve x, wrong lengths, malformed DER, non-minimal varints, foreign codes and multibases, bad base58.",
+        technique="Lean 4 proofs over a model of Parse/String/PubKey/FromPubKey; base-58 is a model of its own with decode∘encode = id proved by induction on positional notation (no multibase hypothesis left), the per-codec key (un)marshallers are parameters: varint round trip (induction), key→DID→text→DID→key identity, DID equality ⇔ key equality, canonical-identifier theorem, rejection theorems, and a decide-checked inclusion between the multicodec tables REGENERATED from the source; tied by a differential run over keys of every algorithm and alternative encodings of their material with an independent crypto-library oracle",
+        level_text="Base58.decode_encode / encode_injective (every byte string, leading zeros included) and the corollaries C16_parse_print_base58, C16_roundtrip_base58, C16_print_injective_base58, C16_reject_not_base58; C16_tables (every code FromPubKey can emit is in Parse's whitelist and PubKey's table — over facts regenerated from did.go/crypto.go on every run), uvarint_roundtrip, C16_parse_print, C16_roundtrip, C16_eq_iff, C16_distinct_algorithms, C16_canonical, C16_one_principal_one_did, C16_print_injective, C16_reject_prefix/base/codec, C16_parsed_code. Go is compared with the model on keys of Ed25519, secp256k1 (native and ECDSA-typed, incl. short coordinates), P-256/384/521, RSA and on did:key strings with uncompressed/hybrid points, flipped parity, off-curve x, wrong lengths, malformed DER, non-minimal varints, foreign codes and multibases, bad base58.",
         level_note="Trusted: Lean kernel; factgen's extraction of the three multicodec tables; conditional on library contracts stated as hypotheses (base58 decode∘encode = id and injectivity; unmarshal∘marshal = id; marshal injective) — measured by the stream, not proved; mr-tron/base58, go-multibase, go-varint, libp2p crypto, crypto/x509 and crypto/elliptic are dependencies outside the proofs. The driver's base58 is executable glue, checked differentially against Go's.",
         assumptions=["base58btc and the key (un)marshallers are parameters of the model with explicit contracts"],
     ),
@@ -196,8 +196,8 @@ PROPS = {
         props_module="Ucan.Props.C17",
         streams=["container"],
         filter=_container_filter(False),
-        technique="Lean 4 proofs about a model of the CAR framing and the container readers: written sections read back exactly (varint round trip by induction), hence the CAR and CBOR containers return exactly the entries put in; the result is permutation-invariant in the write order; a successful read implies every entry unsealed and every block hashes to its stored CID; one bad entry fails the whole read; tied by all writer × reader combinations and single-entry corruptions",
-        level_text="C17_car_roundtrip, C17_car_exact, C17_cbor_roundtrip (via C08_decode_encode), C17_order_independent, C17_all_or_nothing, C17_one_bad_entry_fails, C17_car_integrity. Go: sets of 0–4 sealed tokens × 4 formats × {bytes, io.Writer} writers × {bytes, 1-byte, data-with-EOF, chunked} readers; bit flips across the container (header, length prefixes, stored CIDs, data), bad signatures, duplicated/reordered/mislabelled blocks, blocks under a foreign-codec CID, zero/huge sections, trailing bytes — error/ok and the set of CIDs compared.",
+        technique="Lean 4 proofs about a model of the CAR framing, the container readers and base-64 (decode∘encode = id proved, so the two base64 formats reduce to the CAR and CBOR ones): written sections read back exactly (varint round trip by induction), hence the CAR and CBOR containers return exactly the entries put in; the result is permutation-invariant in the write order; a successful read implies every entry unsealed and every block hashes to its stored CID; one bad entry fails the whole read; tied by all writer × reader combinations and single-entry corruptions",
+        level_text="C17_car_roundtrip, C17_car_exact, C17_cbor_roundtrip (via C08_decode_encode), Base64.decode_encode, C17_carb64_exact, C17_cborb64_roundtrip, C17_base64_variant_agrees, C17_not_base64_refused, C17_order_independent, C17_all_or_nothing, C17_one_bad_entry_fails, C17_car_integrity. Go: sets of 0–4 sealed tokens × 4 formats × {bytes, io.Writer} writers × {bytes, 1-byte, data-with-EOF, chunked} readers; bit flips across the container (header, length prefixes, stored CIDs, data), bad signatures, duplicated/reordered/mislabelled blocks, blocks under a foreign-codec CID, zero/huge sections, trailing bytes — error/ok and the set of CIDs compared.",
         level_note=_CTN_NOTE,
     ),
     "C18": dict(
